@@ -69,6 +69,22 @@ def run_shapes(ctx, rng, prs, png):
     if rng.random() < 0.3 and len(shapes):  # a non-numeric @id in the part
         p = shapes[0].text_frame.paragraphs[0]._p
         p.append(parse_xml('<a:fld xmlns:a="http://schemas.openxmlformats.org/drawingml/2006/main" id="{B6F15528-21DE-4FAA-801E-634DDDAF4B2B}" type="slidenum"><a:t>1</a:t></a:fld>'))
+    if rng.random() < 0.3:
+        # a drawing object from another producer whose ids are not on p:cNvPr elements (a locked canvas: a:cNvPr),
+        # larger than every shape id in the part
+        cur = [int(s) for s in slide._element.xpath("//@id") if s.isdigit()]
+        big = min(max(cur + [1]) + rng.randint(2, 40), 2**32 - 3)
+        slide.shapes._spTree.append(parse_xml(
+            '<p:graphicFrame xmlns:p="http://schemas.openxmlformats.org/presentationml/2006/main" '
+            'xmlns:a="http://schemas.openxmlformats.org/drawingml/2006/main">'
+            '<p:nvGraphicFramePr><p:cNvPr id="%d" name="Canvas"/><p:cNvGraphicFramePr/><p:nvPr/></p:nvGraphicFramePr>'
+            '<p:xfrm><a:off x="0" y="0"/><a:ext cx="9" cy="9"/></p:xfrm>'
+            '<a:graphic><a:graphicData uri="http://schemas.openxmlformats.org/drawingml/2006/lockedCanvas">'
+            '<lc:lockedCanvas xmlns:lc="http://schemas.openxmlformats.org/drawingml/2006/lockedCanvas">'
+            '<a:nvGrpSpPr><a:cNvPr id="%d" name="c"/><a:cNvGrpSpPr/></a:nvGrpSpPr><a:grpSpPr/>'
+            '<a:sp><a:nvSpPr><a:cNvPr id="%d" name="s"/><a:cNvSpPr/></a:nvSpPr><a:spPr/></a:sp>'
+            '</lc:lockedCanvas></a:graphicData></a:graphic></p:graphicFrame>' % (max(big - 2, 1), big - 1, big)))
+        ctx.count("population-with-foreign-ids")
     pre = [int(s) for s in slide._element.xpath("//@id") if s.isdigit()]
     initial_distinct = len(set(pre)) == len(pre)
     ops, got = [], []
@@ -299,6 +315,18 @@ def run_e2e(ctx, rng, png):
     nums = rng.sample(range(1, 15), len(sl))
     for s, i in zip(sl, nums):
         s.part.partname = PackURI("/ppt/slides/slide%d.xml" % i)
+    if len(sl) >= 3 and rng.random() < 0.35:
+        # a slide the usual "delete" recipe removed (its p:sldId and the presentation part's relationship) while a
+        # slide jump from another slide still keeps its part in the package
+        from pptx.enum.shapes import MSO_SHAPE
+        victim = rng.randrange(len(sl))
+        src = sl[(victim + 1) % len(sl)]
+        src.shapes.add_shape(MSO_SHAPE.RECTANGLE, 0, 0, 9, 9).click_action.target_slide = sl[victim]
+        lst = prs.part._element.sldIdLst
+        sld = lst[victim]
+        prs.part.rels.pop(sld.rId)
+        lst.remove(sld)
+        ctx.count("e2e-jump-only-slide")
     b = io.BytesIO(); prs.save(b); b.seek(0)
     prs = Presentation(b)
     ids0 = [s.slide_id for s in prs.slides]
@@ -350,6 +378,9 @@ def run_e2e(ctx, rng, png):
     names = [str(s.part.partname) for s in prs.slides]
     if names != ["/ppt/slides/slide%d.xml" % (i + 1) for i in range(len(names))]:
         ctx.fail("slide-partnames-not-sequential", f"after slide access slide parts are {names}", {"kind": "e2e"})
+    pn = [str(p.partname) for p in prs.part.package.iter_parts()]
+    if len(set(pn)) != len(pn):
+        ctx.fail("partname-duplicate", f"two parts of the package are named {sorted(x for x in set(pn) if pn.count(x) > 1)}", {"kind": "e2e"})
     out = io.BytesIO(); prs.save(out)
     z = zipfile.ZipFile(io.BytesIO(out.getvalue()))
     members = z.namelist()
@@ -467,6 +498,8 @@ def correspond(ctx):
     for _ in range(150 if ctx.quick else 2500):
         run_links(ctx, rng)
         ctx.case(key=("links", ctx.evaluations))
+    from harness.props import c02
+    c02.slide_numbering(ctx)   # slide part names against the numbering model (slide_parts_sequential)
     lines = [t[0] for t in triples]
     for l in lines:
         ctx.case(key=l)
